@@ -101,9 +101,29 @@ def execute(ck, label, grammar, cases, nshards, variants):
     case_rows = vlib.read_ndjson(cases)
     for ab in aborted:
         c = case_rows[ab["case"]]
+        # a step that does not return is reported only if it does not return three times, the last two with nothing
+        # else of this check running
+        one = os.path.join(ck.dir, f"cases_{label}_confirm.ndjson")
+        vlib.write_ndjson(one, [c])
+        confirmed = True
+        for k in range(2):
+            out1 = os.path.join(ck.dir, f"obs_{label}_confirm.ndjson")
+            p = vlib.run_bin("inputs", [grammar, one, out1, "0/1"], timeout=3000, env={"VERIF_VARIANTS": str(variants)})
+            if p.returncode == 0:
+                for r in vlib.read_ndjson(out1):
+                    if r["type"] == "obs":
+                        r["case"] = ab["case"]
+                        r["note"] = "first attempt was ended by the watchdog; completed when run alone"
+                        rows.append(r)
+                confirmed = False
+                break
+            if p.returncode != 3:
+                raise vlib.ToolError(f"confirmation run failed rc={p.returncode}: {p.stderr[-500:]}")
+        if not confirmed:
+            continue
         rows.append({"type": "obs", "case": ab["case"], "entry": c["entry"], "phase": c["phase"], "tpl": c["tpl"],
                      "field": c["field"], "mut": c["mut"], "res": "hang",
-                     "detail": f"the step did not return: {ab['cpu_ms']} ms CPU / {ab['wall_ms']} ms wall ({ab['kind']}); process ended by the watchdog"})
+                     "detail": f"the step did not return (three attempts): {ab['cpu_ms']} ms user CPU / {ab['wall_ms']} ms wall ({ab['kind']}); process ended by the watchdog"})
     for o in outs:
         rows += vlib.read_ndjson(o)
     return rows
